@@ -50,14 +50,17 @@ def answerPca (fs : List (String × String)) : String :=
       let tag (c : Cmp) : String := if exact && !c.isExact then "INEXACT-" ++ c.show else c.show
       -- 3. solver contract on what it reads
       let seen := DMat.ofFn (if solver == "rand" then upperView pre.get else denseSym pre.get)
-      let contract := certify seen.get V.get lam.get scale εrel false
+      --    eigen-certificate tolerance: 2^-30 Dense, 2^-20 Randomized (single Gram–Schmidt pass: orthogonality loss
+      --    (λ_max/λ_min)·2^-53, up to 2^-28 on the anisotropic families)
+      let εeig := if solver == "rand" then pow2 (-20) else εrel
+      let contract := certify seen.get V.get lam.get scale εeig false
       -- 4. the projection object holds exactly (V, mean)
       let cP := cmpMat P.get V.get 0
       let cmu := cmpMat (vecAsMat mu.get) (vecAsMat mean.get) 0
       let projTxt := if cP.isExact && cmu.isExact then "same" else "DIFFERENT"
       -- 5. PROPERTY: (P, lam) top-d eigensystem of the true covariance
-      let ce := certify C.get P.get lam.get scale εrel true
-      let robTxt := if ce.ok then robustExtremal C.get P.get lam.get scale εrel else "skipped"
+      let ce := certify C.get P.get lam.get scale εeig true
+      let robTxt := if ce.ok then robustExtremal C.get P.get lam.get scale εeig else "skipped"
       -- 6. embedding = centred samples × P  (model `project` on the returned pair)
       let Ymodel := DMat.ofFn (embedRows P.get mu.get X.get)
       let ymax := maxAbsM Ymodel.get
@@ -72,7 +75,7 @@ def answerPca (fs : List (String × String)) : String :=
       let vdef := Cert.maxAbs (fun a b => covY a b - (if a = b then lam.get a else 0))
       let cm := Cert.maxAbs (vecAsMat (fun a => sumFin N (fun i => YD.get i a) / (N : Rat)))
       let varTxt :=
-        if vdef > εrel * scale then s!"FAIL-covariance-of-embedding:{showMag vdef}>{showMag (εrel * scale)}"
+        if vdef > εeig * scale then s!"FAIL-covariance-of-embedding:{showMag vdef}>{showMag (εeig * scale)}"
         else if cm > εrel * xscale then s!"FAIL-column-means:{showMag cm}"
         else s!"ok:{showMag vdef}"
       let cs := [cmean, ccov, cpre, cP, cmu, cy]
